@@ -4,7 +4,7 @@
 Require Extraction.
 Require ExtrOcamlBasic.
 From Coq Require Import List NArith ZArith String.
-From BV Require Import Base Fmt Gen.Escapes Buf Codec Get Gen.GetPut Cmp BufMut Heap Spec Recycle Adversary.
+From BV Require Import Base Fmt Gen.Escapes Buf Codec Get Gen.GetPut Cmp BufMut Heap Spec Recycle Adversary EntryDef.
 Extraction Language OCaml.
 Extraction "model.ml"
   Fmt.parse_lit Fmt.debug_fmt Fmt.hex_fmt Fmt.unhex Fmt.tbl_of Fmt.visit Fmt.serialize Fmt.is_lower_hex Fmt.is_upper_hex
@@ -19,6 +19,7 @@ Extraction "model.ml"
   Gen.GetPut.vec_reserve Gen.GetPut.bytesmut_reserve
   Heap.hst0 Heap.run_op Heap.handles_of Heap.storages_of Heap.owners_of Heap.handle_unique Heap.handle_contents
   Spec.sst0 Spec.sstep Spec.svals_of
+  EntryDef.expand EntryDef.view1 EntryDef.view2
   Recycle.bound Recycle.run Recycle.init
   Adversary.k0 Adversary.try_get_fixed Adversary.try_get_u8 Adversary.xtry_copy_to_slice Adversary.xcopy_to_slice Adversary.xcopy_to_bytes
   Adversary.xreader_read Adversary.xiter_next Adversary.bm_put Adversary.vec_put Adversary.sl_put Adversary.take_chunks_vectored Adversary.bm_extend_iter Adversary.from_owner
